@@ -9,15 +9,17 @@ from common import Ctx, driver_batch, fmt
 
 PROPERTY = "C06"
 LEAN_MODULES = ["Proofs.C06", "Proofs.C06.Full", "Proofs.C06.Close", "Proofs.C06.CloseRel", "Proofs.C06.CloseReal",
-                "Proofs.C06.Inverse", "Proofs.C06.InverseLog", "Proofs.C06.InversePy", "Proofs.Numerics"]
+                "Proofs.C06.Inverse", "Proofs.C06.InverseLog", "Proofs.C06.InversePy", "Proofs.C06.Strengthen", "Proofs.C06.Converse", "Proofs.C06.ConverseLog",
+                "Proofs.Numerics"]
 DRIVERS = ["driver", "driver_tick"]
 EXTRA_THEOREM_PREFIXES = ["Num_"]   # Proofs/Numerics.lean: proved error bounds of the model's round35/dsqrt35, used by C06_inverse_x96_round35
 RULE = ("ticks: stride sample + boundaries + random (thorough: all 1 774 545); sqrt prices on, just above, in the middle of and just "
         "below tick boundaries; buckets = (function, sign of tick, position inside the tick interval, decimals pair, orientation)")
 TRUSTED = ["math.log is an oracle: the repaired conversion corrects any estimate by integer comparisons (theorem C06_floor holds for every estimate)",
-           "base_unit_price_to_tick ends in math.floor(math.log(Decimal, float)) (libm): C06_inverse_log is proved under the hypothesis that this "
-           "is the floor logarithm up to a relative perturbation 1e-9 of its argument; the hypothesis is evaluated on every observed call (60-digit reference)",
-           "Decimal(10 ** negative) goes through libm pow; the driver calls the same libm and the value is compared bit-exactly",
+           "base_unit_price_to_tick ends in math.floor(math.log(Decimal, float)) (libm): C06_inverse_log(_round35) is proved under the single libm hypothesis "
+           "LgSound (this is the floor logarithm up to a relative perturbation 1e-9 of its argument); the hypothesis is evaluated on every observed call (60-digit reference)",
+           "Decimal(10 ** negative) goes through libm pow; the driver calls the same libm and the value is compared bit-exactly; the 35-digit inverse theorems "
+           "(C06_inverse_x96_round35_fac/_facPy, C06_inverse_converse_round35) hold for every positive value of it",
            "the epsilon-robust inverse theorems assume |rnd x - x| <= eps|x| and the analogous bound for Decimal.sqrt / ** 2 (eps <= 1e-9; CPython: 5e-35)"]
 ASSUMPTIONS = ["Decimal arithmetic = exact result rounded half-even to 35 digits (validated against CPython)"]
 
@@ -327,6 +329,27 @@ def helpers_correspondence(ctx: Ctx, hp, g):
                                 f"(decimals {d0},{d1}, token0_quote={q0})", dict(rp, sx=str(sx)))
                     continue
                 back = _exc_name(hp.tick_to_base_unit_price, max(MIN_TICK, min(MAX_TICK, r[1])), d0, d1, q0)
+                if route == "log" and back[0] == "ok" and price > 0 and MIN_TICK <= r[1] < MAX_TICK:
+                    # theorem C06_inverse_converse_log: the float-log route's tick brackets the price to 2e-8 relative (LgSound + 2^-30 closeness)
+                    nxt = _exc_name(hp.tick_to_base_unit_price, r[1] + 1, d0, d1, q0)
+                    ctx.count("converse_log_bracket_checked")
+                    if nxt[0] == "ok":
+                        dl, P, lo_p, hi_p = Fraction(2, 10 ** 8), Fraction(price), Fraction(back[1]), Fraction(nxt[1])
+                        okb = ((lo_p <= P * (1 + dl) and P * (1 - dl) <= hi_p) if not q0 else (P * (1 - dl) <= lo_p and hi_p <= P * (1 + dl)))
+                        if not okb:
+                            ctx.violate("helpers.inverse.converse.log.bracket", f"price {price} -> tick {r[1]} (float log) but the prices of ticks {r[1]}, {r[1] + 1} "
+                                        f"({back[1]}, {nxt[1]}) do not bracket it to 2e-8 (decimals {d0},{d1}, token0_quote={q0})", dict(rp, sx=str(sx)))
+                if route == "x96" and back[0] == "ok" and price > 0 and g(MIN_TICK) <= bx[1] < g(MAX_TICK) and MIN_TICK <= r[1] < MAX_TICK:
+                    # theorem C06_inverse_converse(_round35): the answered tick brackets the price up to eleven 35-digit roundings
+                    nxt = _exc_name(hp.tick_to_base_unit_price, r[1] + 1, d0, d1, q0)
+                    ctx.count("converse_bracket_checked")
+                    if nxt[0] == "ok":
+                        dl, P, lo_p, hi_p = Fraction(1, 10 ** 33), Fraction(price), Fraction(back[1]), Fraction(nxt[1])
+                        okb = ((lo_p <= P * (1 + dl) and P * (1 - dl) <= hi_p) if not q0
+                               else (P * (1 - dl) <= lo_p * (1 + dl) and hi_p * (1 - dl) <= P * (1 + dl)))
+                        if not okb:
+                            ctx.violate("helpers.inverse.converse.x96.bracket", f"price {price} -> tick {r[1]} but the prices of ticks {r[1]}, {r[1] + 1} "
+                                        f"({back[1]}, {nxt[1]}) do not bracket it (decimals {d0},{d1}, token0_quote={q0})", dict(rp, sx=str(sx)))
                 if back[0] == "ok" and price > 0:
                     ratio = Fraction(back[1]) / Fraction(price)
                     lim = Fraction(10001, 10000) * (1 + Fraction(1, 10 ** 9))
